@@ -408,6 +408,39 @@ func c06Run(c *core.Ctx) {
 			}
 		}
 	}
+	// (2c) statement boundaries: after each kind of statement that ends without a terminator, EVERY expression
+	// chain of depth <= 2 (3 thorough, representatives) as the next statement - whatever byte it starts with
+	{
+		firsts := []func() *gen.Node{
+			func() *gen.Node { return gen.Let("d", gen.Ca(gen.I("load"))) },
+			func() *gen.Node { return gen.Ex(gen.Po("++", gen.I("n"))) },
+			func() *gen.Node { return gen.Ex(gen.I("a")) },
+			func() *gen.Node { return gen.If(gen.I("c"), gen.Ex(gen.As("=", gen.I("x"), gen.I("b"))), nil) },
+			func() *gen.Node { return gen.Ex(gen.As("=", gen.I("y"), gen.T_("`t`"))) },
+		}
+		maxDepth := 2
+		if c.Thorough() {
+			maxDepth = 3
+		}
+		for depth := 0; depth <= maxDepth; depth++ {
+			hs := gen.Holes(c.Thorough() && depth < 3)
+			gen.Chains(hs, gen.Leaves(), depth, true, func(e *gen.Node, name string) {
+				if !c.Next() || c.Tick() {
+					return
+				}
+				fs := firsts
+				if depth >= 2 {
+					fs = firsts[:2]
+				}
+				for _, f := range fs {
+					c.Inc("boundary_chain_programs")
+					runProg([]*gen.Node{f(), gen.Ex(gen.Clone(e))}, 0)
+				}
+				c.Inc("boundary_chain_programs")
+				runProg([]*gen.Node{gen.Func("w", nil, gen.Ret(gen.I("v")), gen.Ex(gen.Clone(e)))}, 0)
+			})
+		}
+	}
 	// (3) multi-line literals, alone, after/before another statement, and inside nested blocks / functions
 	lits := c06LiteralStmts()
 	nest := gen.Nesters(false)
@@ -443,6 +476,22 @@ func c06Run(c *core.Ctx) {
 			c.Inc("accepted_multiline_layouts")
 		}
 		report(kd, d, text, 200+len(text))
+	}
+	// (3d) identifier spellings
+	for ii, name := range gen.Identifiers() {
+		if !c.Mine(int64(ii)) || c.Tick() {
+			continue
+		}
+		for _, src := range gen.IdentPrograms(name) {
+			c.Cur(src)
+			c.Inc("inputs")
+			c.Inc("identifier_programs")
+			kd, d, acc := c06Check(src, false)
+			if acc {
+				c.Inc("accepted_programs")
+			}
+			report(kd, d, src, 40)
+		}
 	}
 	// (3c) scale family
 	for i, sp := range gen.Scale(c.Thorough()) {
